@@ -427,6 +427,10 @@ def run_type(ffi, gen, rec, d, form, counts):
         fixed = None
         cands = gen.alts(top, 1)
 
+    roomy = None
+    if isvar:
+        fn, fd, _ = d[3][-1]
+        roomy = {fn: 16} if fd[0] == "arr" else {fn: {fd[3][-1][0]: 16}}
     # no initializer: all zero
     if form != "open":
         poison(ffi, fixed)
@@ -467,7 +471,11 @@ def run_type(ffi, gen, rec, d, form, counts):
         r1b = attempt(lambda: rec.new(newtype, c.obj))
         # --- path 2: allocate (same flexible length), zero, assign
         def path2():
-            if form == "ptr":
+            if form == "ptr" and isvar and c.bad:
+                # a refused initializer may store a few leading items before it is refused:
+                # give the reference object room for the longest array any candidate holds
+                p = ffi.new(reftype, roomy)
+            elif form == "ptr":
                 p = ffi.new(reftype, c.var) if c.var is not None else ffi.new(reftype)
             else:
                 p = ffi.new(reftype)
